@@ -162,8 +162,10 @@ def check_properties(prop_file, timeout=900):
             cur = []
             blocks.append(cur)
         elif cur is not None and line.strip():
-            m = re.match(r"^(\S+)\s*:", line)
-            if m:
+            # an axiom entry starts at column 0 with its (possibly qualified)
+            # name; its type may continue on indented lines
+            m = re.match(r"^([A-Za-z_][\w.']*)\s*(:|$)", line)
+            if m and not line.startswith(" "):
                 cur.append(m.group(1))
     reached_failure = False
     for i, t in enumerate(theorems):
@@ -308,8 +310,18 @@ def run_driver(binary, case_lines, timeout=1800, env=None, args=(), wrapper=()):
         e = dict(os.environ)
         if env:
             e.update(env)
+        def _big_stack():
+            import resource
+            try:
+                resource.setrlimit(resource.RLIMIT_STACK, (resource.RLIM_INFINITY, resource.RLIM_INFINITY))
+            except (ValueError, OSError):
+                try:
+                    soft, hard = resource.getrlimit(resource.RLIMIT_STACK)
+                    resource.setrlimit(resource.RLIMIT_STACK, (hard, hard))
+                except (ValueError, OSError):
+                    pass
         p = subprocess.run(list(wrapper) + [binary] + list(args) + [path], stdout=subprocess.PIPE,
-                           stderr=subprocess.PIPE, text=True, timeout=timeout, env=e)
+                           stderr=subprocess.PIPE, text=True, timeout=timeout, env=e, preexec_fn=_big_stack)
         outs = p.stdout.split("\n")
         if outs and outs[-1] == "":
             outs.pop()
